@@ -557,3 +557,1676 @@ def classify_c03_field(ent, k, v, back):
 
 
 CHECKS["C03"] = check_C03
+
+
+# ----------------------------------------------------------------------------- C04
+
+def wf_frame(f):
+    """independent well-formedness test of a UBX frame"""
+    if len(f) < 8 or f[0:2] != b"\xb5\x62":
+        return False
+    ln = int.from_bytes(f[4:6], "little")
+    if len(f) != ln + 8:
+        return False
+    a = b = 0
+    for x in f[2:-2]:
+        a = (a + x) % 256
+        b = (b + a) % 256
+    return f[-2:] == bytes((a, b))
+
+
+def check_C04(ctx):
+    res = Result()
+    rng = ctx.rng
+    lines, meta = [], []
+    n2i = defs.name2ids()
+    for ent, lay, fr in gen_frames(ctx, ctx.n(2, 12)):
+        # route: payload bytes
+        lines.append(f"construct {ent['cls'].hex()} {ent['id'].hex()} {ent['mode']} 1 P {canon.hx(lay.payload)}")
+        meta.append(("payload", ent, None))
+        # route: keywords
+        if kw_constructible(ent) and not has_var_group(ent["defn"]) and lay.attrs[1]:
+            lines.append(f"construct {ent['cls'].hex()} {ent['id'].hex()} {ent['mode']} 1 A " + " ".join(kw_tokens(lay.attrs[1], lay.names)))
+            meta.append(("keywords", ent, None))
+        lines.append(f"construct {ent['cls'].hex()} {ent['id'].hex()} {ent['mode']} 1 E")
+        meta.append(("empty", ent, None))
+    # arbitrary payload bytes for arbitrary ids
+    for c, i in undocumented_ids(rng, ctx.n(30, 300)):
+        p = bytes(rng.getrandbits(8) for _ in range(rng.choice([0, 1, 9, 100])))
+        lines.append(f"construct {c.hex()} {i.hex()} 0 1 P {canon.hx(p)}")
+        meta.append(("payload", dict(mode=0, cls=c, id=i, name="undoc"), None))
+    # config helpers
+    names = list(ubc.UBX_CONFIG_DATABASE)
+    for _ in range(ctx.n(150, 1500)):
+        k = rng.choice([0, 1, 2, 5, 64])
+        items = []
+        for name in rng.sample(names, k):
+            kid, ty = ubc.UBX_CONFIG_DATABASE[name]
+            key = name if rng.random() < 0.5 else f"#{kid}"
+            items.append((key, gen.cfg_value(rng, ty)))
+        lay_, txn = rng.choice([1, 2, 4, 7]), rng.choice([0, 1, 2, 3])
+        lines.append(f"cfgset {lay_} {txn} " + " ".join(f"{k}={canon.valstr(v)}" for k, v in items))
+        meta.append(("cfgset", dict(mode=1, cls=b"\x06", id=b"\x8a", name="CFG-VALSET"), None))
+        lines.append(f"cfgdel {rng.choice([2, 4, 6])} {txn} " + " ".join(k for k, _ in items))
+        meta.append(("cfgdel", dict(mode=1, cls=b"\x06", id=b"\x8c", name="CFG-VALDEL"), None))
+        lines.append(f"cfgpoll {rng.choice([0, 1, 2, 7])} {rng.choice([0, 1, 64, 65535])} " + " ".join(k for k, _ in items))
+        meta.append(("cfgpoll", dict(mode=2, cls=b"\x06", id=b"\x8b", name="CFG-VALGET"), None))
+    py = do_corr(res, lines)
+    samples = []
+    for (route, ent, _), a, l in zip(meta, py, lines):
+        nm = f"{defs.MODENAME[ent['mode']]}:{ent['name']}"
+        if not a.startswith("ok "):
+            res.hist[f"{route}:refused"] += 1
+            continue
+        res.distinct((route, nm))
+        res.hist[f"{route}:built"] += 1
+        f = bytes.fromhex(field(a, "ser"))
+        pl = field(a, "payload")
+        pl = b"" if pl in ("None", "-") else bytes.fromhex(pl)
+        if not wf_frame(f) or f[2:3] != ent["cls"] or f[3:4] != ent["id"] or f[6:-2] != pl:
+            res.finding(f"def={nm};route={route};class=not-well-formed", "serialize() is not a well-formed frame around the payload", dict(op=l[:2000], ser=f.hex()))
+            continue
+        # accepted by parse in the same mode (with the bitfield view it was built with)
+        try:
+            m2 = UBXReader.parse(f, msgmode=ent["mode"], validate=1)
+            if m2.serialize() != f:
+                res.finding(f"def={nm};route={route};class=reparse-differs", "re-parsed message serializes differently", dict(op=l[:2000]))
+        except Exception as e:  # noqa
+            if route == "empty" and ent["mode"] != 0 and ent["name"] != "undoc":
+                # a message built without payload for a SET/POLL definition that requires one: parse has no definition problem either
+                pass
+            key = f"def={nm};route={route};class=own-output-rejected"
+            if own_name_clash(ctx.facts, ent) if "defn" in ent else False:
+                key = f"def={nm};class=unparseable"
+            res.finding(key, f"serialize() output is rejected by parse in the same mode: {canon.excname(e)}", dict(op=l[:2000], ser=f.hex()))
+        if len(samples) < 4:
+            samples.append(l[:120])
+    # addressing forms: names, ints, bytes give identical frames
+    alines, ameta = [], []
+    for ent in ctx.reach:
+        base = defs.VARIANT_PINS.get((ent["mode"], ent["name"]), (ent["name"], None))[0]
+        key = n2i.get(base)
+        if key is None or len(key) != 2:
+            continue
+        clsname = UBX_CLASSES.get(key[0:1])
+        if clsname is None:
+            continue
+        alines.append(f"addr str {clsname} {base}")
+        ameta.append((ent, key))
+        alines.append(f"addr int {key[0]} {key[1]}")
+        ameta.append((ent, key))
+    for c, i in [(-1, 0), (256, 1), (6, 256), (0, 0), (255, 255)]:
+        alines.append(f"addr int {c} {i}")
+        ameta.append((None, None))
+    alines.append("addr str XXX XXX-YYY")
+    ameta.append((None, None))
+    apy = do_corr(res, alines)
+    for (ent, key), a, l in zip(ameta, apy, alines):
+        if ent is None:
+            continue
+        exp = f"ok {key[0:1].hex()} {key[1:2].hex()}"
+        res.distinct(("addr", l))
+        if a != exp:
+            res.finding(f"addr={l};class=forms-disagree", f"addressing form resolves to {a}, bytes form is {exp}", dict(op=l))
+    # end-to-end on the real constructor for a sample (the three forms give identical frames)
+    for ent in rng.sample(ctx.reach, min(len(ctx.reach), ctx.n(60, 400))):
+        base = defs.VARIANT_PINS.get((ent["mode"], ent["name"]), (ent["name"], None))[0]
+        key = n2i.get(base)
+        if key is None or len(key) != 2 or key[0:1] not in UBX_CLASSES:
+            continue
+        lay = gen.layout(rng, ent)
+        if lay is None:
+            continue
+        outs = []
+        for form in ((UBX_CLASSES[key[0:1]], base), (key[0], key[1]), (key[0:1], key[1:2])):
+            try:
+                outs.append(UBXMessage(form[0], form[1], ent["mode"], payload=lay.payload).serialize())
+            except Exception as e:  # noqa
+                outs.append(canon.excname(e))
+        res.count(3)
+        if len(set(map(str, outs))) != 1:
+            res.finding(f"def={defs.MODENAME[ent['mode']]}:{ent['name']};class=forms-disagree", "names / ints / bytes addressing give different results", dict(outs=[str(o)[:80] for o in outs]))
+    return res.finish("distinct (construction route, definition) built successfully; routes: payload, keywords, no-payload, config_set/del/poll; plus every id × {names, ints}", samples)
+
+
+CHECKS["C04"] = check_C04
+
+
+# ----------------------------------------------------------------------------- C05
+
+def corruptions(rng, f, full):
+    out = []
+    n = len(f)
+    pos = range(n) if full else rng.sample(range(n), min(n, 12))
+    for i in pos:
+        vals = range(256) if full else [rng.getrandbits(8), f[i] ^ 1, f[i] ^ 0x80, 0, 255]
+        for v in vals:
+            if v != f[i]:
+                out.append(("sub", f[:i] + bytes([v]) + f[i + 1:]))
+    for i in (range(n + 1) if full else rng.sample(range(n + 1), min(n + 1, 10))):
+        for v in (range(256) if full and n < 20 else [0, f[i - 1] if i else 0xb5, 0xff, rng.getrandbits(8)]):
+            out.append(("ins", f[:i] + bytes([v]) + f[i:]))
+    for i in (range(n) if full else rng.sample(range(n), min(n, 10))):
+        out.append(("del", f[:i] + f[i + 1:]))
+    for k in range(n):
+        out.append(("trunc", f[:k]))
+    for _ in range(6):
+        i = rng.randrange(n)
+        j = min(n, i + rng.randrange(2, 5))
+        out.append(("burst", f[:i] + bytes(rng.getrandbits(8) for _ in range(j - i)) + f[j:]))
+    out.append(("append", f + b"\x00"))
+    out.append(("append", f + f[-2:]))
+    return out
+
+
+def check_C05(ctx):
+    res = Result()
+    rng = ctx.rng
+    frames = [x for x in gen_frames(ctx, 1)]
+    rng.shuffle(frames)
+    frames = frames[:ctx.n(60, 400)]
+    # always include the zero-length and tiny frames (the repaired defect lived there)
+    frames += [(dict(mode=0, name="zero"), None, gen.frame(b"\x06", b"\x01", b"")),
+               (dict(mode=0, name="zero-unknown"), None, gen.frame(b"\x00", b"\x00", b"")),
+               (dict(mode=0, name="one"), None, gen.frame(b"\x05", b"\x01", b"\x06\x01"))]
+    lines, meta = [], []
+    for idx, (ent, lay, f) in enumerate(frames):
+        full = len(f) <= 12 or (ctx.tier == "thorough" and len(f) <= 40)
+        for kind, g in corruptions(rng, f, full):
+            lines.append(f"parse {ent['mode']} 1 1 {canon.hx(g)}")
+            meta.append((kind, ent, f, g))
+        # VALNONE with corrupted checksum parses to the same attributes
+        for ck in (b"\x00\x00", bytes([f[-2] ^ 0xFF, f[-1]]), bytes(rng.getrandbits(8) for _ in range(2))):
+            lines.append(f"parse {ent['mode']} 0 1 {canon.hx(f[:-2] + ck)}")
+            meta.append(("valnone", ent, f, f[:-2] + ck))
+        lines.append(f"parse {ent['mode']} 0 1 {canon.hx(f)}")
+        meta.append(("valnone-ref", ent, f, f))
+    # all byte strings up to a small length over a frame-relevant alphabet
+    alpha = [0xb5, 0x62, 0x00, 0x01, 0x06, 0xff]
+    maxlen = ctx.n(5, 7)
+    for L in range(0, maxlen + 1):
+        for tup in itertools.product(alpha, repeat=L):
+            g = bytes(tup)
+            lines.append(f"parse 0 1 1 {canon.hx(g)}")
+            meta.append(("exhaustive", dict(mode=0, name="alpha"), None, g))
+    py = do_corr(res, lines)
+    ref = {}
+    samples = []
+    for (kind, ent, f, g), a, l in zip(meta, py, lines):
+        res.hist[kind + (":accepted" if a.startswith("ok ") else ":" + a[4:])] += 1
+        if kind == "valnone-ref":
+            ref[f] = attrs_of(a) if a.startswith("ok ") else a
+            continue
+        if kind == "valnone":
+            continue
+        if a.startswith("ok "):
+            res.distinct(g)
+            if not wf_frame(g):
+                res.finding(f"class=malformed-accepted;len={len(g)};kind={kind}", "parse(validate=VALCKSUM) returned a message for a malformed frame", dict(op=l))
+        elif a != "err UBXParseError":
+            if wf_frame(g):
+                continue   # a well-formed frame may still be refused by the message layer (UBXMessageError/UBXTypeError)
+            res.finding(f"class=rejected-with-{a[4:]};kind={kind}", "malformed frame rejected with something other than UBXParseError", dict(op=l))
+        if len(samples) < 4 and kind != "exhaustive":
+            samples.append(dict(kind=kind, op=l[:90], answer=a[:40]))
+    for (kind, ent, f, g), a, l in zip(meta, py, lines):
+        if kind == "valnone":
+            got = attrs_of(a) if a.startswith("ok ") else a
+            if got != ref.get(f):
+                res.finding("class=valnone-differs", "with VALNONE a corrupted checksum changes the parsed attributes", dict(op=l))
+    return res.finish("distinct corrupted inputs accepted by parse (must all be well-formed); every substitution/insertion/deletion/truncation/burst of sample frames + all strings ≤ L over {b5,62,00,01,06,ff}", samples)
+
+
+CHECKS["C05"] = check_C05
+
+
+# ----------------------------------------------------------------------------- streams
+
+from pynmeagps import NMEAMessage, NMEAReader
+from pyrtcm import RTCMReader
+from pyrtcm.rtcmhelpers import calc_crc24q
+
+NOISE_ALPHABET = bytes(b for b in range(256) if b not in (0xb5, 0x24, 0xd3))
+
+
+def nmea_frame(rng):
+    kind = rng.random()
+    if kind < 0.6:
+        m = NMEAMessage("GN", "GLL", 0, lat=53.0 + rng.random(), NS="N", lon=2.0 + rng.random(), EW="W",
+                        time="12:00:00", status="A", posMode="A")
+        return m.serialize()
+    if kind < 0.8:
+        m = NMEAMessage("GP", "GGA", 0, time="11:22:33", lat=51.5 + rng.random(), NS="N", lon=0.12, EW="W", quality=1,
+                        numSV=rng.randrange(4, 12), HDOP=1.1, alt=56.0, altUnit="M", sep=47.0, sepUnit="M")
+        return m.serialize()
+    # proprietary sentence ($P…) with an unknown id: pynmeagps rejects or accepts, either is fine
+    body = b"PUBX,00,081350.00,4717.113210,N,00833.915187,E,546.589,G3,2.1,2.0,0.007,77.52,0.007,,0.92,1.19,0.77,9,0,0"
+    ck = 0
+    for x in body:
+        ck ^= x
+    return b"$" + body + b"*" + f"{ck:02X}".encode() + b"\r\n"
+
+
+def rtcm_frame(rng, n=None):
+    n = rng.choice([0, 0, 1, 8, 19, 40, 200]) if n is None else n
+    pl = bytes(rng.getrandbits(8) for _ in range(n))
+    if n >= 2:
+        pl = bytes([0x3e, 0xd0]) + pl[2:]          # message type 1005
+    body = b"\xd3" + n.to_bytes(2, "big") + pl
+    return body + calc_crc24q(body).to_bytes(3, "big")
+
+
+def ubx_frame(ctx):
+    ent = ctx.rng.choice(ctx.reach)
+    lay = gen.layout(ctx.rng, ent)
+    return gen.frame(ent["cls"], ent["id"], lay.payload if lay else b"")
+
+
+def corrupt_keep_boundaries(rng, f, proto):
+    """corrupt a frame without changing how the reader delimits it"""
+    b = bytearray(f)
+    if proto == "ubx":
+        i = rng.randrange(6, len(b)) if len(b) > 6 else len(b) - 1
+    elif proto == "nmea":
+        i = rng.randrange(3, len(b) - 2)
+        v = b[i] ^ 1
+        if v in (0x0a,):
+            v = b[i] ^ 2
+        b[i] = v
+        return bytes(b)
+    else:
+        i = rng.randrange(3, len(b))
+    b[i] ^= 1 << rng.randrange(8)
+    return bytes(b)
+
+
+def noise(rng, n):
+    return bytes(rng.choice(NOISE_ALPHABET) for _ in range(n))
+
+
+def clean_stream(ctx, nframes=None, corrupt_p=0.0, noise_p=0.3):
+    """[(proto, frame bytes, corrupted?)] and the concatenation with optional noise"""
+    rng = ctx.rng
+    parts, frames = [], []
+    for _ in range(nframes if nframes is not None else rng.randrange(1, 8)):
+        c = rng.random()
+        if c < 0.45:
+            p, f = "ubx", ubx_frame(ctx)
+        elif c < 0.75:
+            p, f = "nmea", nmea_frame(rng)
+        else:
+            p, f = "rtcm", rtcm_frame(rng)
+        bad = False
+        if rng.random() < corrupt_p:
+            f = corrupt_keep_boundaries(rng, f, p)
+            bad = True
+        if rng.random() < noise_p:
+            parts.append(noise(rng, rng.randrange(1, 6)))
+        parts.append(f)
+        frames.append((p, f, bad))
+    if rng.random() < noise_p:
+        parts.append(noise(rng, rng.randrange(1, 4)))
+    return frames, b"".join(parts)
+
+
+def garbage_stream(ctx):
+    """arbitrary bytes rich in preamble fragments, plus mutated frames"""
+    rng = ctx.rng
+    parts = []
+    for _ in range(rng.randrange(1, 7)):
+        c = rng.random()
+        if c < 0.3:
+            parts.append(bytes(rng.choice(b"\xb5\x62\x24\x47\x50\x0a\xd3\x00\x01\x02\xff\x06") for _ in range(rng.randrange(1, 12))))
+        elif c < 0.5:
+            f = ubx_frame(ctx)
+            parts.append(f[:rng.randrange(len(f) + 1)])
+        elif c < 0.65:
+            f = nmea_frame(rng)
+            parts.append(f[:rng.randrange(len(f) + 1)])
+        elif c < 0.8:
+            f = rtcm_frame(rng)
+            parts.append(f[rng.randrange(3):])
+        else:
+            fr, s = clean_stream(ctx, rng.randrange(1, 3), corrupt_p=0.4)
+            parts.append(s)
+    return b"".join(parts)
+
+
+def readp_lines(ctx, streams, variants):
+    """build readp op lines: variants = list of (src, q, filt, parsing, mode, val, bf) per stream (callable or list)"""
+    fl = run_model([f"frames {canon.hx(s)}" for s in streams])
+    lines, meta = [], []
+    for s, fr in zip(streams, fl):
+        vs = variants(s) if callable(variants) else variants
+        cache = {}
+        for (src, q, filt, parsing, mode, val, bf) in vs:
+            key = (mode, val)
+            if key not in cache:
+                verd = []
+                for tok in fr.split():
+                    p, h = tok.split(":")
+                    if p != "ubx":
+                        verd.append(f"{p}:{h}={canon.verdict_for(p, bytes.fromhex(h), mode, val)}")
+                cache[key] = " ".join(verd)
+            lines.append(f"readp {src} {q} {filt} {parsing} {mode} {val} {bf} {canon.hx(s)} {cache[key]}".rstrip())
+            meta.append((s, src, q, filt, parsing, mode, val, bf))
+    return lines, meta
+
+
+def parse_readp(a):
+    """answer -> (items [(proto, raw hex, parsed str)], calls [str], raised, crashed)"""
+    i = a.index("items=[") + 7
+    j = a.index("] calls=[")
+    items = []
+    body = a[i:j]
+    if body:
+        # items are separated by spaces outside braces
+        depth, cur = 0, ""
+        for ch in body:
+            if ch == "{":
+                depth += 1
+            elif ch == "}":
+                depth -= 1
+            if ch == " " and depth == 0:
+                items.append(cur)
+                cur = ""
+            else:
+                cur += ch
+        if cur:
+            items.append(cur)
+    items = [tuple(x.split(":", 2)) for x in items]
+    k = a.index("] raised=", j)
+    calls = [c for c in a[j + 9:k].split(",") if c]
+    raised = a[k + 9:a.index(" crashed=")]
+    crashed = a[a.index(" crashed=") + 9:]
+    return items, calls, raised, crashed
+
+
+def rand_chunks(rng, n, maxc=9):
+    lens, tot = [], 0
+    while tot < n:
+        c = rng.randrange(1, maxc)
+        lens.append(c)
+        tot += c
+    return lens
+
+
+def independent_expect(ctx, frames, mode, val, bf):
+    """what the reader must deliver for a clean weave, computed with the protocol parsers only"""
+    out = []
+    for p, f, bad in frames:
+        try:
+            if p == "ubx":
+                m = UBXReader.parse(f, msgmode=mode, validate=val, parsebitfield=bool(bf))
+                out.append(("ubx", f.hex(), "{" + canon.msgdump(m) + "}"))
+            elif p == "nmea":
+                m = NMEAReader.parse(f, validate=val, msgmode=mode)
+                out.append(("nmea", f.hex(), "P" if m is not None else "None"))
+            else:
+                m = RTCMReader.parse(f, validate=val, labelmsm=1)
+                out.append(("rtcm", f.hex(), "P" if m is not None else "None"))
+        except Exception:  # noqa  (rejected frame: skipped)
+            pass
+    return out
+
+
+# ----------------------------------------------------------------------------- C06
+
+def check_C06(ctx):
+    res = Result()
+    rng = ctx.rng
+    streams, fr_of = [], {}
+    for _ in range(ctx.n(250, 4000)):
+        frames, s = clean_stream(ctx, corrupt_p=0.2, noise_p=0.35)
+        streams.append(s)
+        fr_of[s] = frames
+    # every ordered pair of protocols as neighbours, with and without zero-length RTCM3
+    for a in ("ubx", "nmea", "rtcm"):
+        for b in ("ubx", "nmea", "rtcm"):
+            mk = {"ubx": lambda: ubx_frame(ctx), "nmea": lambda: nmea_frame(rng), "rtcm": lambda: rtcm_frame(rng, rng.choice([0, 5]))}
+            f1, f2 = mk[a](), mk[b]()
+            streams.append(f1 + f2)
+            fr_of[f1 + f2] = [(a, f1, False), (b, f2, False)]
+    def variants(s):
+        mode = rng.choice([0, 0, 1, 2, 3])
+        return [("file", rng.choice([0, 1]), 7, 1, mode, rng.choice([0, 1, 1]), rng.choice([0, 1]))]
+    lines, meta = readp_lines(ctx, streams, variants)
+    py = do_corr(res, lines)
+    samples = []
+    for (s, src, q, filt, parsing, mode, val, bf), a, l in zip(meta, py, lines):
+        items, calls, raised, crashed = parse_readp(a)
+        exp = independent_expect(ctx, fr_of[s], mode, val, bf)
+        res.distinct(tuple(p for p, f, b in fr_of[s]))
+        res.hist[f"frames={len(fr_of[s])}"] += 1
+        if crashed != "none" or raised != "none":
+            res.finding(f"class=reader-raised-{crashed if crashed != 'none' else raised}", "iteration over a clean weave raised", dict(op=l[:3000]))
+        elif [tuple(x) for x in items] != exp:
+            n_rtcm0 = sum(1 for p, f, b in fr_of[s] if p == "rtcm" and f[1:3] == b"\x00\x00")
+            res.finding(f"class=delivery-differs;zero-rtcm={int(n_rtcm0 > 0)}", "delivered items differ from the frames their protocol parsers accept",
+                        dict(op=l[:3000], expected=[x[:2] for x in exp], got=[x[:2] for x in items]))
+        if len(samples) < 3:
+            samples.append(dict(stream=s.hex()[:120], frames=[p for p, f, b in fr_of[s]], delivered=len(items)))
+    return res.finish("distinct protocol sequences of clean weaves (valid + boundary-preserving corrupted frames + noise without b5/24/d3), expected output computed with UBXReader.parse / pynmeagps / pyrtcm only", samples)
+
+
+CHECKS["C06"] = check_C06
+
+
+# ----------------------------------------------------------------------------- C07
+
+class TellStream(io.BytesIO):
+    pass
+
+
+def check_C07(ctx):
+    res = Result()
+    rng = ctx.rng
+    streams = []
+    alpha = [0xb5, 0x62, 0x24, 0x47, 0x0a, 0xd3, 0x00, 0x01, 0x02, 0xff]
+    maxlen = ctx.n(4, 6)
+    for L in range(0, maxlen + 1):
+        for tup in itertools.product(alpha, repeat=L):
+            streams.append(bytes(tup))
+    for _ in range(ctx.n(1500, 30000)):
+        L = rng.randrange(maxlen + 1, 11)
+        streams.append(bytes(rng.choice(alpha) for _ in range(L)))
+    for _ in range(ctx.n(300, 5000)):
+        streams.append(garbage_stream(ctx))
+    def variants(s):
+        return [("file", rng.choice([0, 1]), rng.choice([7, 7, 7, 2, 5, 0]), rng.choice([1, 1, 0]), rng.choice([0, 3]), rng.choice([0, 1]), 1)]
+    lines, meta = readp_lines(ctx, streams, variants)
+    py = do_corr(res, lines)
+    samples = []
+    for (s, src, q, filt, parsing, mode, val, bf), a, l in zip(meta, py, lines):
+        items, calls, raised, crashed = parse_readp(a)
+        res.distinct(s)
+        if crashed != "none":
+            res.finding(f"class=reader-raised-{crashed}", "iteration raised with errors not raised", dict(op=l[:3000]))
+            continue
+        pos = 0
+        ok = True
+        for it in items:
+            raw = bytes.fromhex(it[1])
+            k = s.find(raw, pos)
+            if k < 0 or raw[0] not in (0xb5, 0x24, 0xd3):
+                ok = False
+                break
+            pos = k + len(raw)
+        if not ok:
+            res.finding("class=items-not-ordered-slices", "raw items are not non-overlapping in-order slices beginning with a preamble", dict(op=l[:3000]))
+        res.hist[f"items={min(len(items), 5)}"] += 1
+    # nothing left unread: run the real reader and look at the stream position when iteration stops
+    sub = streams if len(streams) < 4000 else rng.sample(streams, 4000)
+    for s in sub:
+        st = io.BytesIO(s)
+        try:
+            for _ in UBXReader(st, quitonerror=0, protfilter=rng.choice([7, 2, 0]), parsing=rng.choice([True, False])):
+                pass
+        except Exception as e:  # noqa
+            res.finding(f"class=reader-raised-{canon.excname(e)}", "iteration raised under ERR_IGNORE", dict(stream=s.hex()))
+            continue
+        res.count()
+        if st.tell() != len(s):
+            res.finding("class=eof-with-data-left", f"iteration stopped at position {st.tell()} of {len(s)}", dict(stream=s.hex()))
+    samples = [dict(stream=s.hex()) for s in streams[1000:1003]]
+    res.coverage["exhaustive"] = False
+    return res.finish(f"distinct streams: all strings of length ≤ {maxlen} over 10 frame-relevant bytes (exhaustive part), random longer ones, garbage mixtures", samples)
+
+
+CHECKS["C07"] = check_C07
+
+
+# ----------------------------------------------------------------------------- C08
+
+def inspect_ok(m):
+    """every inspection the property lists; returns the name of the first exception or None"""
+    try:
+        str(m); repr(m); m.identity; m.length; m.payload; m.msgmode; m.serialize(); m.msg_cls; m.msg_id
+    except Exception as e:  # noqa
+        return canon.excname(e)
+    return None
+
+
+def check_C08(ctx):
+    res = Result()
+    rng = ctx.rng
+    lines, meta = [], []
+    # checksum-valid frames of every definition at every length 0 … len+2 (quick: strided)
+    for ent in ctx.reach:
+        lay = gen.layout(rng, ent, maxrep=2)
+        base = lay.payload if lay else b""
+        base = base[:600]
+        full = ctx.tier == "thorough" or len(base) <= 24
+        lens = range(len(base) + 3) if full else sorted(set([0, 1, 2, 3, len(base) - 1, len(base), len(base) + 1, len(base) + 2] + rng.sample(range(len(base) + 3), 6)))
+        for L in lens:
+            if L < 0:
+                continue
+            p = (base + bytes(rng.getrandbits(8) for _ in range(3)))[:L]
+            f = gen.frame(ent["cls"], ent["id"], p)
+            mode = ent["mode"] if rng.random() < 0.8 else rng.choice([0, 1, 2, 3])
+            lines.append(f"parse {mode} {rng.choice([0, 1])} {rng.choice([0, 1])} {f.hex()}")
+            meta.append(("deflen", ent["name"]))
+    # random payloads for every class/id in the id table, all modes
+    for key in UBX_MSGIDS:
+        for mode in (0, 1, 2, 3):
+            p = bytes(rng.getrandbits(8) for _ in range(rng.choice([0, 1, 2, 8, 33])))
+            if len(key) == 3:
+                p = key[2:3] + p
+            f = gen.frame(key[0:1], key[1:2], p)
+            lines.append(f"parse {mode} 1 {rng.choice([0, 1])} {f.hex()}")
+            meta.append(("ids", key.hex()))
+    # arbitrary strings, short and long, both validate settings, bad modes
+    for _ in range(ctx.n(1500, 30000)):
+        L = rng.choice([0, 1, 2, 3, 5, 6, 7, 8, 9, 12, 40])
+        g = bytes(rng.choice(b"\xb5\x62\x00\x01\x06\x13\xff\x0a\x31") if rng.random() < 0.7 else rng.getrandbits(8) for _ in range(L))
+        lines.append(f"parse {rng.choice([0, 1, 2, 3, 3, 4, 9])} {rng.choice([0, 0, 1])} 1 {canon.hx(g)}")
+        meta.append(("arbitrary", L))
+    # very long inputs (beyond what a length field can express)
+    for cls, mid in ((b"\x01", b"\x02"), (b"\x77", b"\x00"), (b"\x06", b"\x01"), (b"\x13", b"\x00")):
+        for n in (65535, 65536, 70000):
+            body = cls + mid + (n & 0xFFFF).to_bytes(2, "little") + bytes(n)
+            f = b"\xb5\x62" + body + uh.calc_checksum(body)
+            for val in (0, 1):
+                lines.append(f"parse 0 {val} 1 {f.hex()}")
+                meta.append(("long", n))
+    py = do_corr(res, lines)
+    for (kind, x), a, l in zip(meta, py, lines):
+        res.hist[kind + ":" + (a[:2] if a.startswith("ok") else a[4:])] += 1
+        res.distinct((kind, x, a[:6]))
+        if a.startswith("ok "):
+            st, rp = field(a, "str"), field(a, "repr")
+            if st != "ok" or not rp.startswith("ok:"):
+                res.finding(f"class=inspection-raises-{st if st != 'ok' else rp}", "a returned message cannot be inspected without raising", dict(op=l[:400]))
+        elif a[4:] not in UBXERRNAMES:
+            res.finding(f"class=parse-raises-{a[4:]}", "parse raised something other than a UBX* error", dict(op=l[:400]))
+    # direct: full inspection list on the real objects for a sample
+    for l in rng.sample(lines, min(len(lines), ctx.n(1500, 20000))):
+        t = l.split()
+        try:
+            m = UBXReader.parse(canon.unhx(t[4]), msgmode=int(t[1]), validate=int(t[2]), parsebitfield=t[3] == "1")
+        except UBXERR:
+            continue
+        except Exception as e:  # noqa
+            res.finding(f"class=parse-raises-{canon.excname(e)}", "parse raised something other than a UBX* error", dict(op=l[:400]))
+            continue
+        res.count()
+        e = inspect_ok(m)
+        if e:
+            res.finding(f"class=inspection-raises-{e}", "a returned message cannot be inspected without raising", dict(op=l[:400]))
+    # reader: terminates, never raises under IGNORE/LOG, only protocol errors under RAISE
+    streams = [garbage_stream(ctx) for _ in range(ctx.n(300, 5000))]
+    def variants(s):
+        return [("file", q, rng.choice([7, 7, 3, 6, 0]), rng.choice([1, 1, 0]), rng.choice([0, 1, 2, 3]), rng.choice([0, 1]), rng.choice([0, 1])) for q in (0, 1, 2)]
+    rl, rmeta = readp_lines(ctx, streams, variants)
+    rpy = do_corr(res, rl)
+    allowed = UBXERRNAMES | set(canon.NCODES) | set(canon.RCODES)
+    for (s, src, q, *_), a, l in zip(rmeta, rpy, rl):
+        items, calls, raised, crashed = parse_readp(a)
+        if crashed != "none":
+            res.finding(f"class=reader-raises-{crashed};q={q}", "reader iteration raised a foreign exception", dict(op=l[:3000]))
+        if raised != "none" and (q != 2 or raised not in allowed):
+            res.finding(f"class=reader-raises-{raised};q={q}", "reader raised although errors are not to be raised", dict(op=l[:3000]))
+    samples = [l[:100] for l in lines[:2]] + [rl[0][:100]]
+    return res.finish("distinct (generator, definition/length, outcome): checksum-valid frames of every definition at lengths 0…len+2, every id × 4 modes, arbitrary strings, 65535/65536/70000-byte inputs; reader on garbage × 3 policies", samples)
+
+
+CHECKS["C08"] = check_C08
+
+
+# ----------------------------------------------------------------------------- C09
+
+def check_C09(ctx):
+    res = Result()
+    rng = ctx.rng
+    lines, meta = [], []
+    streams = []
+    for _ in range(ctx.n(40, 600)):
+        if rng.random() < 0.6:
+            frames, s = clean_stream(ctx, corrupt_p=0.15)
+            streams.append((s, frames))
+        else:
+            streams.append((garbage_stream(ctx), None))
+    for s, frames in streams:
+        s = s[:260]
+        cfg = (rng.choice([0, 1]), rng.choice([7, 7, 2, 5]), rng.choice([1, 1, 0]), rng.choice([0, 3]), rng.choice([0, 1]), 1)
+        cuts = range(len(s) + 1) if len(s) <= 120 or ctx.tier == "thorough" else sorted(set(rng.sample(range(len(s) + 1), 100) + [0, len(s)]))
+        for k in cuts:
+            streams_k = s[:k]
+            meta.append((s, k, cfg, frames))
+            lines.append(streams_k)
+    # build readp lines grouped per cut stream
+    uniq = list(dict.fromkeys(lines))
+    fl = dict(zip(uniq, run_model([f"frames {canon.hx(x)}" for x in uniq])))
+    ops = []
+    for (s, k, cfg, frames), sk in zip(meta, lines):
+        q, filt, parsing, mode, val, bf = cfg
+        verd = []
+        for tok in fl[sk].split():
+            p, h = tok.split(":")
+            if p != "ubx":
+                verd.append(f"{p}:{h}={canon.verdict_for(p, bytes.fromhex(h), mode, val)}")
+        ops.append(f"readp file {q} {filt} {parsing} {mode} {val} {bf} {canon.hx(sk)} {' '.join(verd)}".rstrip())
+    py = do_corr(res, ops)
+    full = {}
+    for (s, k, cfg, frames), a in zip(meta, py):
+        if k == len(s):
+            full[(s, cfg)] = parse_readp(a)
+    samples = []
+    for (s, k, cfg, frames), a, l in zip(meta, py, ops):
+        items, calls, raised, crashed = parse_readp(a)
+        fi = full[(s, cfg)][0]
+        res.distinct((s, k))
+        if crashed != "none" or raised != "none":
+            res.finding(f"class=cut-run-raised-{crashed if crashed != 'none' else raised}", "reading a cut stream raised", dict(op=l[:3000], cut=k))
+        elif items != fi[:len(items)]:
+            res.finding("class=not-a-prefix", f"items of S[:{k}] are not a prefix of the items of S", dict(op=l[:3000], cut=k, full=s.hex()))
+        elif any(len(bytes.fromhex(it[1])) > k for it in items):
+            res.finding("class=partial-frame", "an item longer than the cut was returned", dict(op=l[:3000], cut=k))
+        # clean concatenation: every frame wholly before the cut whose parser accepts it is delivered
+        if frames is not None and cfg[1] == 7 and s == b"".join(f for _, f, _ in frames):
+            pos = 0
+            whole = []
+            for p, f, bad in frames:
+                pos += len(f)
+                if pos <= k:
+                    whole.append(f.hex())
+            delivered = [it[1] for it in items]
+            fulldel = [it[1] for it in fi]
+            missing = [w for w in whole if w in fulldel and w not in delivered]
+            if missing:
+                res.finding("class=whole-frame-not-delivered", "a frame lying wholly before the cut was not delivered", dict(op=l[:3000], cut=k))
+    samples = [dict(stream=s.hex()[:80], cut=k) for (s, k, cfg, fr) in meta[5:8]]
+    return res.finish("distinct (stream, cut position): every cut of clean and garbage streams", samples)
+
+
+CHECKS["C09"] = check_C09
+
+
+# ----------------------------------------------------------------------------- C10
+
+def compositions(n):
+    """all ordered compositions of n"""
+    if n == 0:
+        yield []
+        return
+    for first in range(1, n + 1):
+        for rest in compositions(n - first):
+            yield [first] + rest
+
+
+def check_C10(ctx):
+    res = Result()
+    rng = ctx.rng
+    streams, variants_of = [], {}
+    # exhaustive segmentations of short streams
+    shorts = [gen.frame(b"\x06", b"\x01", b""), b"$GNGLL,A*2D\r\n"[:10], bytes.fromhex("d3000047ea4b"), gen.frame(b"\x05", b"\x01", b"\x06\x01")[:9],
+              b"\xb5\x62\x24\x47\x0a\xd3\x00\x00", b"\x24\x47\x41\x0a\xb5\x62\x06\x01\x00\x00\x07\x1b"[:11]]
+    maxn = ctx.n(9, 12)
+    for s in shorts:
+        s = s[:maxn]
+        vs = []
+        for comp in compositions(len(s)):
+            for end in ("", "!"):
+                vs.append((f"sock:{','.join(map(str, comp))}{end}", 0, 7, 1, 0, 1, 1))
+        vs.append(("file", 0, 7, 1, 0, 1, 1))
+        streams.append(s)
+        variants_of[s] = vs
+    for _ in range(ctx.n(120, 2500)):
+        s = clean_stream(ctx, corrupt_p=0.15)[1] if rng.random() < 0.6 else garbage_stream(ctx)
+        s = s[:rng.choice([len(s), len(s), rng.randrange(len(s) + 1)])]
+        if s in variants_of:
+            continue
+        cfg = (rng.choice([0, 1, 2]), rng.choice([7, 7, 3, 4]), rng.choice([1, 1, 0]), rng.choice([0, 3]), rng.choice([0, 1]), rng.choice([0, 1]))
+        vs = [("file",) + cfg]
+        for maxc in (2, 4, 9, 64, 5000):
+            lens = rand_chunks(rng, len(s), maxc + 1) if s else [1]
+            vs.append((f"sock:{','.join(map(str, lens))}{rng.choice(['', '!'])}",) + cfg)
+        streams.append(s)
+        variants_of[s] = vs
+    lines, meta = readp_lines(ctx, streams, lambda s: variants_of[s])
+    py = do_corr(res, lines)
+    ref = {}
+    for (s, src, *cfg), a in zip(meta, py):
+        if src == "file":
+            ref[(s, tuple(cfg))] = a
+    samples = []
+    for (s, src, *cfg), a, l in zip(meta, py, lines):
+        if src == "file":
+            continue
+        res.distinct((s, src))
+        r = ref[(s, tuple(cfg))]
+        # compare delivered items (and raised error under ERR_RAISE); handler calls may legitimately differ at the end of a
+        # truncated stream: a file reports a short read (UBXStreamError), a socket reports nothing
+        if parse_readp(a)[0] != parse_readp(r)[0] or parse_readp(a)[3] != parse_readp(r)[3]:
+            res.finding("class=socket-differs-from-file", "items read through a socket differ from items read from a file", dict(op=l[:3000], file=r[:600], sock=a[:600]))
+        if len(samples) < 3:
+            samples.append(dict(stream=s.hex()[:60], src=src[:60]))
+    # SocketWrapper.read / readline directly
+    sl = []
+    for _ in range(ctx.n(400, 6000)):
+        s = bytes(rng.choice(b"ab\n\xb5\x00") for _ in range(rng.randrange(0, 14)))
+        lens = rand_chunks(rng, len(s), rng.choice([2, 4, 20])) if s else [1]
+        ops_ = ",".join(rng.choice(["0", "1", "2", "3", "5", "L", "L"]) for _ in range(rng.randrange(1, 7)))
+        sl.append(f"sockread {','.join(map(str, lens))} {ops_} {canon.hx(s)}")
+    spy = do_corr(res, sl)
+    for a, l in zip(spy, sl):
+        t = l.split()
+        data = canon.unhx(t[3])
+        pos = 0
+        for o, r in zip(t[2].split(","), a.split()):
+            if not r.startswith("ok:"):
+                break
+            d = canon.unhx(r[3:])
+            if o == "L":
+                exp = data[pos:data.index(b"\n", pos) + 1] if b"\n" in data[pos:] else None
+                if exp is None or d != exp:
+                    res.finding("class=readline-wrong", "readline() did not return the bytes up to and including the next LF", dict(op=l))
+            else:
+                if len(d) != int(o) or d != data[pos:pos + int(o)]:
+                    res.finding("class=read-wrong", "read(n) returned neither n bytes nor nothing", dict(op=l))
+            pos += len(d)
+    # real TCP-style delivery from a concurrent sender thread (outside the model; labelled as such)
+    import socket as sk
+    nreal = ctx.n(12, 150)
+    for _ in range(nreal):
+        s = clean_stream(ctx, corrupt_p=0.1)[1]
+        a, b = sk.socketpair()
+        a.settimeout(0.3)
+        end = rng.choice(["close", "timeout"])
+        def sender(sock=b, data=s, end=end):
+            pos = 0
+            r = random.Random(len(data))
+            while pos < len(data):
+                n = r.randrange(1, 40)
+                sock.sendall(data[pos:pos + n])
+                pos += n
+                if r.random() < 0.2:
+                    time.sleep(0.001)
+            if end == "close":
+                sock.close()
+        th = threading.Thread(target=sender)
+        th.start()
+        try:
+            got = [(raw, str(p)) for raw, p in UBXReader(a, quitonerror=0, bufsize=rng.choice([1, 7, 4096]))]
+        except Exception as e:  # noqa
+            got = canon.excname(e)
+        th.join()
+        a.close(); b.close()
+        exp = [(raw, str(p)) for raw, p in UBXReader(io.BytesIO(s), quitonerror=0)]
+        res.count()
+        if got != exp:
+            res.finding("class=real-socket-differs-from-file", "items read through a real socket pair differ from items read from a file", dict(stream=s.hex(), end=end))
+    res.assumptions = ["real TCP delivery and the sender thread are exercised (socketpair), not modelled",
+                       "handler calls at the very end of a truncated stream may differ (file: short read reported; socket: nothing) — the property speaks of (raw, parsed) items"]
+    return res.finish("distinct (stream, recv segmentation): all compositions of short streams × {close, timeout}, random compositions of long ones; SocketWrapper.read/readline op sequences; real socketpair runs", samples)
+
+
+CHECKS["C10"] = check_C10
+
+
+# ----------------------------------------------------------------------------- C11
+
+def check_C11(ctx):
+    res = Result()
+    rng = ctx.rng
+    streams = [clean_stream(ctx, corrupt_p=0.2)[1] if rng.random() < 0.5 else garbage_stream(ctx) for _ in range(ctx.n(120, 2000))]
+    def variants(s):
+        mode, val, bf, q = rng.choice([0, 3]), rng.choice([0, 1]), rng.choice([0, 1]), rng.choice([0, 1])
+        return [("file", q, F, P, mode, val, bf) for F in range(8) for P in (1, 0)]
+    lines, meta = readp_lines(ctx, streams, variants)
+    py = do_corr(res, lines)
+    table = {}
+    for (s, src, q, F, P, mode, val, bf), a in zip(meta, py):
+        table[(s, F, P)] = parse_readp(a)
+    bit = {"nmea": 1, "ubx": 2, "rtcm": 4}
+    for (s, F, P), (items, calls, raised, crashed) in table.items():
+        res.distinct((s, F, P))
+        if crashed != "none":
+            res.finding(f"class=reader-raised-{crashed}", "reader raised", dict(stream=s.hex(), F=F, P=P))
+            continue
+        allitems = table[(s, 7, P)][0]
+        exp = [it for it in allitems if bit.get(it[0], 0) & F]
+        if items != exp:
+            res.finding("class=filter-changes-framing", f"items with protfilter={F} are not the protfilter=7 items restricted to the mask", dict(stream=s.hex(), F=F, P=P))
+        if P == 0:
+            if any(it[2] != "None" for it in items):
+                res.finding("class=parsing-false-parsed", "parsing=False delivered a parsed value", dict(stream=s.hex(), F=F))
+            on = [(it[0], it[1]) for it in table[(s, F, 1)][0]]
+            off = [(it[0], it[1]) for it in items]
+            # framing unchanged: frames delivered with parsing on are a subsequence of those delivered with parsing off;
+            # equal when no frame was rejected
+            it_ = iter(off)
+            if not all(x in it_ for x in on):
+                res.finding("class=parsing-changes-framing", "frames delivered with parsing=True are not among those delivered with parsing=False", dict(stream=s.hex(), F=F))
+            if not table[(s, F, 1)][1] and table[(s, F, 1)][2] == "none" and len(on) != len(off) and False:
+                pass
+        # protocol() agrees with the dispatch that produced the item
+        for it in items:
+            try:
+                pr = uh.protocol(bytes.fromhex(it[1]))
+            except Exception as e:  # noqa
+                pr = canon.excname(e)
+            if pr != bit[it[0]]:
+                res.finding("class=protocol-helper-disagrees", f"protocol() says {pr} for an item dispatched as {it[0]}", dict(raw=it[1]))
+    samples = [dict(stream=s.hex()[:80]) for s in streams[:3]]
+    return res.finish("distinct (stream, mask, parsing): 8 masks × 2 parsing settings over clean and garbage streams", samples)
+
+
+CHECKS["C11"] = check_C11
+
+
+# ----------------------------------------------------------------------------- C12
+
+def check_C12(ctx):
+    res = Result()
+    rng = ctx.rng
+    streams = [clean_stream(ctx, corrupt_p=0.45)[1] if rng.random() < 0.6 else garbage_stream(ctx) for _ in range(ctx.n(200, 4000))]
+    def variants(s):
+        F, P, mode, val, bf = rng.choice([7, 7, 3, 6]), 1, rng.choice([0, 3]), rng.choice([0, 1, 1]), rng.choice([0, 1])
+        return [("file", q, F, P, mode, val, bf) for q in (0, 1, 2)]
+    lines, meta = readp_lines(ctx, streams, variants)
+    py = do_corr(res, lines)
+    table = {}
+    for (s, src, q, *_), a in zip(meta, py):
+        table[(s, q)] = parse_readp(a)
+    for s in dict.fromkeys(streams):
+        i0, c0, r0, x0 = table[(s, 0)]
+        i1, c1, r1, x1 = table[(s, 1)]
+        i2, c2, r2, x2 = table[(s, 2)]
+        res.distinct(s)
+        res.hist[f"errors={min(len(c1), 4)}"] += 1
+        if x0 != "none" or x1 != "none" or x2 != "none":
+            res.finding(f"class=reader-raised-{x0 if x0 != 'none' else x1 if x1 != 'none' else x2}", "foreign exception", dict(stream=s.hex()))
+            continue
+        if i0 != i1:
+            res.finding("class=ignore-differs-from-log", "ERR_IGNORE and ERR_LOG deliver different items", dict(stream=s.hex()))
+        if c0:
+            res.finding("class=handler-called-under-ignore", "error handler called under ERR_IGNORE", dict(stream=s.hex()))
+        if r0 != "none" or r1 != "none":
+            res.finding("class=raised-under-ignore-or-log", "raised although policy is not ERR_RAISE", dict(stream=s.hex()))
+        if c1:
+            if r2 != c1[0] or i2 != i1[:len(i2)]:
+                res.finding("class=raise-differs", "ERR_RAISE does not deliver the items before the first rejected frame and raise that error", dict(stream=s.hex(), calls=c1, raised=r2))
+        else:
+            if r2 != "none" or i2 != i1:
+                res.finding("class=raise-differs", "ERR_RAISE differs although nothing was rejected", dict(stream=s.hex()))
+    # exactly one handler call per rejected frame, none for delivered frames: compare with an independent count on clean weaves
+    for _ in range(ctx.n(150, 2500)):
+        frames, s = clean_stream(ctx, corrupt_p=0.4, noise_p=0.0)
+        mode, val = 0, 1
+        exp_items = independent_expect(ctx, frames, mode, val, 1)
+        nrej = len(frames) - len(exp_items)
+        calls = []
+        try:
+            got = list(UBXReader(io.BytesIO(s), quitonerror=1, msgmode=mode, validate=val, errorhandler=lambda e: calls.append(e)))
+        except Exception as e:  # noqa
+            res.finding(f"class=reader-raised-{canon.excname(e)}", "reader raised under ERR_LOG", dict(stream=s.hex()))
+            continue
+        res.count()
+        if len(calls) != nrej or len(got) != len(exp_items):
+            res.finding("class=handler-count-wrong", f"{len(calls)} handler calls for {nrej} rejected frames", dict(stream=s.hex()))
+    samples = [dict(stream=s.hex()[:80]) for s in streams[:3]]
+    return res.finish("distinct streams × 3 policies (good/corrupted frames of three protocols, garbage)", samples)
+
+
+CHECKS["C12"] = check_C12
+
+
+# ----------------------------------------------------------------------------- C13
+
+class FdCapture:
+    """capture everything written to fd 1 and fd 2 (not just sys.stdout) while active"""
+
+    def __enter__(self):
+        sys.stdout.flush(); sys.stderr.flush()
+        self.tmp = tempfile.TemporaryFile()
+        self.saved = (os.dup(1), os.dup(2))
+        os.dup2(self.tmp.fileno(), 1)
+        os.dup2(self.tmp.fileno(), 2)
+        return self
+
+    def __exit__(self, *a):
+        sys.stdout.flush(); sys.stderr.flush()
+        os.dup2(self.saved[0], 1)
+        os.dup2(self.saved[1], 2)
+        os.close(self.saved[0]); os.close(self.saved[1])
+        self.tmp.seek(0)
+        self.data = self.tmp.read()
+        self.tmp.close()
+
+
+def deep_digest():
+    """digest of every shared definition / configuration table"""
+    import pyubx2.ubxtypes_core as c, pyubx2.ubxtypes_get as g, pyubx2.ubxtypes_set as s_, pyubx2.ubxtypes_poll as p, pyubx2.ubxvariants as v
+    h = hashlib.sha256()
+    for obj in (g.UBX_PAYLOADS_GET, s_.UBX_PAYLOADS_SET, p.UBX_PAYLOADS_POLL, c.UBX_MSGIDS, c.UBX_CLASSES, c.ATTTYPE,
+                ubc.UBX_CONFIG_DATABASE, ubc.UBX_CONFIG_STORSIZE, {k: {kk: vv.__name__ for kk, vv in d.items()} for k, d in v.VARIANTS.items()}):
+        h.update(repr(obj).encode())
+    return h.hexdigest()
+
+
+def static_global_writes():
+    """AST scan: stores into module-level objects from inside functions of the control modules"""
+    import ast
+    import pyubx2.ubxmessage as um, pyubx2.ubxhelpers as uh_, pyubx2.ubxvariants as uv, pyubx2.ubxreader as ur, pyubx2.socket_wrapper as sw
+    hits = []
+    MUT = {"append", "extend", "insert", "pop", "remove", "clear", "update", "setdefault", "popitem", "sort", "reverse", "add", "discard", "__setitem__"}
+    for mod in (um, uh_, uv, ur, sw):
+        src = open(mod.__file__, newline="").read().replace("\r\n", "\n")
+        tree = ast.parse(src)
+        top = set()
+        for n in tree.body:
+            if isinstance(n, ast.Assign):
+                for t in n.targets:
+                    if isinstance(t, ast.Name):
+                        top.add(t.id)
+            elif isinstance(n, (ast.Import, ast.ImportFrom)):
+                for a in n.names:
+                    top.add((a.asname or a.name).split(".")[0])
+        for fn in ast.walk(tree):
+            if not isinstance(fn, (ast.FunctionDef, ast.AsyncFunctionDef)):
+                continue
+            local = {a.arg for a in fn.args.args + fn.args.kwonlyargs} | ({fn.args.vararg.arg} if fn.args.vararg else set()) | ({fn.args.kwarg.arg} if fn.args.kwarg else set())
+            for n in ast.walk(fn):
+                if isinstance(n, ast.Assign):
+                    for t in n.targets:
+                        for x in ast.walk(t):
+                            if isinstance(x, ast.Name) and isinstance(x.ctx, ast.Store):
+                                local.add(x.id)
+                elif isinstance(n, (ast.For, ast.comprehension)):
+                    for x in ast.walk(n.target):
+                        if isinstance(x, ast.Name):
+                            local.add(x.id)
+                elif isinstance(n, ast.With):
+                    for it in n.items:
+                        if it.optional_vars is not None:
+                            for x in ast.walk(it.optional_vars):
+                                if isinstance(x, ast.Name):
+                                    local.add(x.id)
+            def root(e):
+                while isinstance(e, (ast.Subscript, ast.Attribute)):
+                    e = e.value
+                return e.id if isinstance(e, ast.Name) else None
+            for n in ast.walk(fn):
+                if isinstance(n, ast.Global):
+                    hits.append(f"{mod.__name__}.{fn.name}: global {','.join(n.names)}")
+                if isinstance(n, (ast.Assign, ast.AugAssign, ast.Delete)):
+                    tg = n.targets if isinstance(n, (ast.Assign, ast.Delete)) else [n.target]
+                    for t in tg:
+                        if isinstance(t, (ast.Subscript, ast.Attribute)):
+                            r = root(t)
+                            if r and r in top and r not in local and r not in ("self",):
+                                hits.append(f"{mod.__name__}.{fn.name}:{n.lineno}: store into module-level {r}")
+                if isinstance(n, ast.Call) and isinstance(n.func, ast.Attribute) and n.func.attr in MUT:
+                    r = root(n.func.value)
+                    if r and r in top and r not in local:
+                        hits.append(f"{mod.__name__}.{fn.name}:{n.lineno}: {r}.{n.func.attr}(…)")
+                if isinstance(n, ast.Call) and isinstance(n.func, ast.Name) and n.func.id == "print":
+                    hits.append(f"{mod.__name__}.{fn.name}:{n.lineno}: print(…)")
+    return hits
+
+
+def check_C13(ctx):
+    res = Result()
+    rng = ctx.rng
+    # (1) immutability: correspondence op + direct probing of every attribute name
+    frames = gen_frames(ctx, 1)
+    rng.shuffle(frames)
+    lines = []
+    for ent, lay, f in frames[:ctx.n(150, 490)]:
+        lines.append(f"setattr {ent['mode']} 1 {rng.choice([0, 1])} {f.hex()}")
+    py = do_corr(res, lines)
+    for a, l in zip(py, lines):
+        if a.startswith("err"):
+            continue
+        res.distinct(("immut", l[:40]))
+        if not a.startswith("refused UBXMessageError UBXMessageError ser="):
+            res.finding(f"class=mutation-{a.split()[0]}-{' '.join(a.split()[1:3])}", "assigning or deleting an attribute did not raise UBXMessageError / changed the message", dict(op=l[:400], answer=a[:200]))
+    # constructed (not parsed) messages too
+    for ent, lay, f in frames[:ctx.n(80, 490)]:
+        try:
+            m = UBXMessage(ent["cls"], ent["id"], ent["mode"], payload=lay.payload)
+        except UBXERR:
+            continue
+        before = m.serialize()
+        for nme in list(m.__dict__) + ["brandnew", "_payload", "_immutable", "_mode", "payload", "length", "identity"]:
+            for act in ("set", "del"):
+                try:
+                    setattr(m, nme, 0) if act == "set" else delattr(m, nme)
+                    res.finding(f"class=mutation-accepted-{act}", f"{act} of attribute {nme} accepted", dict(msg=repr(m)[:200], name=nme))
+                except UBXMessageError:
+                    pass
+                except Exception as e:  # noqa
+                    res.finding(f"class=mutation-raises-{canon.excname(e)}", f"{act} of attribute {nme} raised {canon.excname(e)}", dict(msg=repr(m)[:200], name=nme))
+                res.count()
+        if m.serialize() != before:
+            res.finding("class=serialization-changed", "serialization changed after refused mutations", dict(msg=repr(m)[:200]))
+    # (2) no output, tables untouched, history independence
+    probe_lines = []
+    for ent, lay, f in frames[:ctx.n(120, 490)]:
+        probe_lines.append(f"parse {ent['mode']} 1 1 {f.hex()}")
+        if kw_constructible(ent) and not has_var_group(ent["defn"]) and lay.attrs[1]:
+            probe_lines.append(f"construct {ent['cls'].hex()} {ent['id'].hex()} {ent['mode']} 1 A " + " ".join(kw_tokens(lay.attrs[1], lay.names)))
+    probe_lines += [f"construct 06 31 2 1 A tpIdx=i1", "construct 06 31 2 1 P 01", "construct 06 31 2 1 E",
+                    "cfgset 1 0 CFG_NMEA_PROTVER=i41", "cfgpoll 0 0 CFG_UART1_BAUDRATE", "cfgdel 2 0 #545259521"]
+    d0 = deep_digest()
+    with FdCapture() as cap:
+        first = corr.run_python(probe_lines)
+    if cap.data:
+        # find which operation writes
+        culprit = None
+        for l in probe_lines:
+            with FdCapture() as c1:
+                corr.run_python([l])
+            if c1.data:
+                culprit = l
+                break
+        res.finding("class=writes-to-stdout-or-stderr", f"parsing/constructing wrote {cap.data[:80]!r}", dict(op=(culprit or "")[:400]))
+    model = [canon.canon_readp_model(canon.canon_model_line(x)) for x in run_model(probe_lines)]
+    res.count(len(probe_lines))
+    for l, a, b in zip(probe_lines, first, model):
+        if a != b and a.count("=") <= corr.MAX_ATTRS:
+            res.diffs.append(dict(op=l, py=a, model=b))
+    # unrelated work in between: other messages, errors, streams, config helpers
+    with FdCapture() as cap2:
+        corr.run_python([f"parse {rng.choice([0, 1, 2, 3])} {rng.choice([0, 1])} 1 {canon.hx(garbage_stream(ctx)[:60])}" for _ in range(300)])
+        for ent, lay, f in frames[-60:]:
+            try:
+                UBXMessage(ent["cls"], ent["id"], ent["mode"], payload=lay.payload[:-1] if lay.payload else b"\x00")
+            except Exception:  # noqa
+                pass
+        second = corr.run_python(list(reversed(probe_lines)))[::-1]
+    if cap2.data:
+        res.finding("class=writes-to-stdout-or-stderr", f"parsing/constructing wrote {cap2.data[:80]!r}", dict(op="(history run)"))
+    res.count(len(probe_lines))
+    for l, a, b in zip(probe_lines, first, second):
+        if a != b:
+            res.finding("class=history-dependent", "the result for an input changed after other inputs were processed", dict(op=l[:400], first=a[:200], later=b[:200]))
+    # concurrently from worker threads
+    nthreads = 8
+    outs = [None] * nthreads
+    def worker(i):
+        r = random.Random(i)
+        mine = probe_lines[:]
+        r.shuffle(mine)
+        got = dict(zip(mine, corr.run_python(mine)))
+        outs[i] = [got[l] for l in probe_lines]
+    old_si = sys.getswitchinterval()
+    sys.setswitchinterval(1e-6)
+    try:
+        with FdCapture() as cap3:
+            ths = [threading.Thread(target=worker, args=(i,)) for i in range(nthreads)]
+            [t.start() for t in ths]
+            [t.join() for t in ths]
+    finally:
+        sys.setswitchinterval(old_si)
+    res.count(len(probe_lines) * nthreads)
+    if cap3.data:
+        res.finding("class=writes-to-stdout-or-stderr", f"concurrent run wrote {cap3.data[:80]!r}", dict(op="(threads)"))
+    for i in range(nthreads):
+        for l, a, b in zip(probe_lines, first, outs[i] or []):
+            if a != b:
+                res.finding("class=schedule-dependent", "the result for an input differs when computed concurrently", dict(op=l[:400], first=a[:200], thread=b[:200]))
+                break
+    if deep_digest() != d0:
+        res.finding("class=tables-mutated", "shared definition / configuration tables changed", None)
+    for h in static_global_writes():
+        res.finding(f"class=static-global-write;{h.split(':')[0]}", f"static scan: {h}", dict(site=h))
+    res.distinct(("probes", len(probe_lines)))
+    res.assumptions = ["thread interleavings are exercised (8 threads, 1 µs switch interval), not proved",
+                       "UBXReader.read() under ERR_LOG writes rejected frames to the logging module by design and is outside the capture"]
+    return res.finish("probe set (parse + construct of every definition, config helpers) evaluated first, after unrelated work, reversed, and from 8 threads; fd-level capture of stdout/stderr; table digest; static scan for global writes / print", [l[:100] for l in probe_lines[:3]])
+
+
+CHECKS["C13"] = check_C13
+
+
+# ----------------------------------------------------------------------------- C14
+
+def check_C14(ctx):
+    res = Result()
+    rng = ctx.rng
+    db = ubc.UBX_CONFIG_DATABASE
+    lines, meta = [], []
+    # every key, both addressing forms, boundary + random values
+    names = list(db)
+    if ctx.tier != "thorough":
+        pass
+    for name in names:
+        kid, ty = db[name]
+        for form in (name, f"#{kid}"):
+            v = gen.cfg_value(rng, ty)
+            lay_, txn = rng.choice([1, 2, 4, 7]), rng.choice([0, 1, 2, 3])
+            lines.append(f"cfgset {lay_} {txn} {form}={canon.valstr(v)}")
+            meta.append(("set", lay_, txn, [(name, kid, ty, v)]))
+        lines.append(f"cfgname {name}")
+        meta.append(("name", name, kid, ty))
+        lines.append(f"cfgkey {kid}")
+        meta.append(("key", name, kid, ty))
+    # lists of 0..64 and >64, mixed forms, unknown ids, headers
+    for _ in range(ctx.n(200, 3000)):
+        k = rng.choice([0, 1, 2, 3, 10, 63, 64, 65, 70])
+        items = []
+        used = set()
+        for _i in range(k):
+            if rng.random() < 0.15:
+                kid = gen.unknown_key(rng)
+                ty = "X%03d" % ubc.UBX_CONFIG_STORSIZE[kid >> 28]
+                name = "CFG_" + hex(kid)
+                form = f"#{kid}"
+            else:
+                name = rng.choice(names)
+                kid, ty = db[name]
+                form = name if rng.random() < 0.5 else f"#{kid}"
+            if kid in used:
+                continue
+            used.add(kid)
+            items.append((form, name, kid, ty, gen.cfg_value(rng, ty)))
+        lay_, txn, pos = rng.choice([0, 1, 2, 4, 7, 255]), rng.choice([0, 1, 2, 3, 255]), rng.choice([0, 1, 64, 65535])
+        lines.append(f"cfgset {lay_} {txn} " + " ".join(f"{f}={canon.valstr(v)}" for f, n, k_, t, v in items))
+        meta.append(("set", lay_, txn, [(n, k_, t, v) for f, n, k_, t, v in items]))
+        lines.append(f"cfgdel {lay_} {txn} " + " ".join(f for f, *_ in items))
+        meta.append(("del", lay_, txn, [(n, k_, t, None) for f, n, k_, t, v in items]))
+        lines.append(f"cfgpoll {lay_} {pos} " + " ".join(f for f, *_ in items))
+        meta.append(("poll", lay_, pos, [(n, k_, t, None) for f, n, k_, t, v in items]))
+    # unknown ids with every size code, and invalid ones
+    for code in range(0, 16):
+        for _ in range(3):
+            kid = (code << 28) | rng.getrandbits(28)
+            lines.append(f"cfgkey {kid}")
+            meta.append(("ukey", kid))
+    for nme in ("CFG_NOT_A_KEY", "cfg_nmea_protver", "X"):
+        lines.append(f"cfgname {nme}")
+        meta.append(("uname", nme))
+    # parsing CFG-VALSET / CFG-VALGET payloads holding arbitrary key lists
+    for ent in [e for e in ctx.reach if gen.is_cfgval(e)]:
+        for _ in range(ctx.n(150, 3000)):
+            lay = gen.cfgval_layout(rng, ent, maxrep=rng.choice([3, 8, 64]))
+            f = gen.frame(ent["cls"], ent["id"], lay.payload)
+            lines.append(f"parse {ent['mode']} 1 {rng.choice([0, 1])} {f.hex()}")
+            meta.append(("parse", ent, lay))
+    py = do_corr(res, lines)
+    first_name = {}
+    for n_, (k_, t_) in db.items():
+        first_name.setdefault(k_, n_)
+    for m, a, l in zip(meta, py, lines):
+        kind = m[0]
+        res.hist[kind + (":ok" if a.startswith("ok") else ":" + a[4:])] += 1
+        if kind in ("set", "del", "poll"):
+            _, h1, h2, items = m
+            if len(items) > 64:
+                if a != "err UBXMessageError":
+                    res.finding("class=more-than-64-accepted", f"{len(items)} items not refused with UBXMessageError: {a[:40]}", dict(op=l[:500]))
+                continue
+            if not a.startswith("ok "):
+                if 0 <= h1 <= 255 and 0 <= h2 <= (65535 if kind == "poll" else 255):
+                    res.finding(f"class=helper-refused-{a[4:]}", "config helper refused valid input", dict(op=l[:500]))
+                continue
+            res.distinct((kind, len(items)))
+            pl = field(a, "payload")
+            pl = b"" if pl in ("None", "-") else bytes.fromhex(pl)
+            if kind == "poll":
+                exp = b"\x00" + bytes([h1]) + h2.to_bytes(2, "little")
+            else:
+                exp = bytes([0 if h2 == 0 else 1, h1, h2, 0])
+            for n_, k_, t_, v in items:
+                exp += k_.to_bytes(4, "little")
+                if kind == "set":
+                    exp += gen.cfg_encode(t_, v)
+            if pl != exp:
+                res.finding(f"class=payload-layout;helper={kind}", "payload is not header + key ids (+ values at the storage width)", dict(op=l[:600], expected=exp.hex(), got=pl.hex()))
+        elif kind == "name":
+            _, name, kid, ty = m
+            if a != f"ok {kid} {canon.tyshort(ty)}":
+                res.finding(f"key={name};class=name-lookup", f"cfgname2key gives {a}", dict(op=l))
+        elif kind == "key":
+            _, name, kid, ty = m
+            res.distinct(("key", kid))
+            if a != f"ok {name} {canon.tyshort(ty)}":
+                if a == f"ok {first_name[kid]} {canon.tyshort(ty)}":
+                    res.finding(f"key={hex(kid)};class=two-names-for-one-id", f"key id {hex(kid)} is registered under {first_name[kid]} and {name}: id→name→id does not return to {name}", dict(op=l))
+                else:
+                    res.finding(f"key={hex(kid)};class=id-lookup", f"cfgkey2name gives {a}", dict(op=l))
+            # size code of the id agrees with the declared type
+            if ubc.UBX_CONFIG_STORSIZE.get((kid >> 28) & 7) != gen.tsize(ty):
+                res.finding(f"key={hex(kid)};class=size-code", f"declared type {ty} disagrees with the id's size code", dict(op=l))
+        elif kind == "ukey":
+            kid = m[1]
+            code = kid >> 28
+            hexd = hex(kid)[2]
+            if kid in first_name:
+                continue
+            if hexd in "12345":
+                exp = f"ok CFG_{hex(kid)} X{ubc.UBX_CONFIG_STORSIZE[int(hexd)]}"
+                if a != exp:
+                    res.finding("class=unknown-key-naming", f"unknown id {hex(kid)} → {a}, expected {exp}", dict(op=l))
+            elif not a.startswith("err "):
+                res.finding("class=invalid-size-code-accepted", f"unknown id {hex(kid)} with invalid size code → {a}", dict(op=l))
+        elif kind == "parse":
+            _, ent, lay = m
+            if not a.startswith("ok "):
+                res.finding(f"class=cfgval-rejected-{a[4:]}", "CFG-VALSET/VALGET payload rejected", dict(op=l[:600]))
+                continue
+            res.distinct(("parse", len(lay.cfgitems)))
+            bf = int(l.split()[3])
+            exp = ",".join(f"{k}={canon.valstr(v)}" for k, v in lay.attrs[bf].items())
+            if attrs_of(a) != exp:
+                res.finding("class=cfgval-attrs", "parsed key/value attributes differ", dict(op=l[:600], expected=exp[:400], got=attrs_of(a)[:400]))
+    samples = [l[:100] for l in lines[:2]] + [lines[-1][:100]]
+    return res.finish("every database key × {name, id} through config_set, cfgname2key, cfgkey2name; lists of 0…70 items; unknown ids with all 16 top digits; parsed CFG-VALSET/VALGET payloads", samples)
+
+
+CHECKS["C14"] = check_C14
+
+
+# ----------------------------------------------------------------------------- C15
+
+BAD_POOL = None
+
+
+def bad_values(rng):
+    return [
+        -1, -(2 ** 63), 2 ** 64, 2 ** 31, 255, 256, 65536, 10 ** 30, 0, 1, True, False,
+        0.5, -0.0, 1e300, float("nan"), float("inf"), float("-inf"), 3.0,
+        "", "abc", "x" * 40, b"", b"\x01", b"\x01\x02", b"\xff" * 3, b"\x00" * 33, None, [], [1, 2, 3], [0] * 256, [300], ["a"], {"other": 1},
+    ]
+
+
+def spec_len(ent, kw):
+    """payload length the definition implies for keyword-built messages (counted groups from the supplied counts)"""
+    def walk(d, n):
+        tot = 0
+        for k, v in d.items():
+            if isinstance(v, tuple):
+                if v[0] in gen.BITTYPES:
+                    tot += gen.tsize(v[0])
+                else:
+                    if isinstance(v[0], int):
+                        c = v[0]
+                    elif v[0] == "None":
+                        c = 0
+                    else:
+                        c = kw.get(v[0], 0)
+                        if not isinstance(c, int) or c < 0:
+                            return None
+                    sub = walk(v[1], c)
+                    if sub is None:
+                        return None
+                    tot += c * sub
+            elif isinstance(v, list):
+                tot += gen.tsize(v[0])
+            elif v == "CH":
+                return None
+            else:
+                tot += gen.tsize(v)
+        return tot
+    return walk(ent["defn"], 1)
+
+
+def attr_slots(ent):
+    """(base name, kind, type, scale, width bits) for every top-level or group-member attribute / flag"""
+    out = []
+    def walk(d, depth):
+        for k, v in d.items():
+            if isinstance(v, tuple):
+                if v[0] in gen.BITTYPES:
+                    for f, ft in v[1].items():
+                        if f[0:8] != "reserved":
+                            out.append((f, "flag", ft, None, depth))
+                else:
+                    walk(v[1], depth + 1)
+            elif k[0:3] == "_HP":
+                continue
+            elif isinstance(v, list):
+                out.append((k, "scaled", v[0], v[1], depth))
+            else:
+                out.append((k, "plain", v, None, depth))
+    walk(ent["defn"], 0)
+    return out
+
+
+def check_C15(ctx):
+    res = Result()
+    rng = ctx.rng
+    lines, meta = [], []
+    ents = [e for e in ctx.reach if kw_constructible(e) and not gen.is_cfgval(e) and not own_name_clash(ctx.facts, e)]
+    pool = bad_values(rng)
+    per = ctx.n(3, 30)
+    for ent in ents:
+        slots = attr_slots(ent)
+        if not slots:
+            continue
+        cs = gen.count_sources(ent["defn"])
+        for _ in range(per):
+            name, kind, ty, sc, depth = rng.choice(slots)
+            v = rng.choice(pool)
+            kw = {}
+            # make grouped attributes exist: set count sources to 1
+            for c in cs:
+                kw[c] = 1
+            rn = name + "_01" * depth
+            kw[rn] = v
+            # selector keywords so that the intended definition is chosen
+            pin = ent.get("pin")
+            if pin and pin[0] == "byte":
+                for dk in ("type", "version"):
+                    if dk in ent["defn"] and dk not in kw and dk != name:
+                        kw[dk] = pin[2]
+            toks = []
+            for k, val in kw.items():
+                b_, idx = (name, [1] * depth) if k == rn else (k, [])
+                toks.append(f"{b_}:{'.'.join(map(str, idx))}={canon.valstr(val)}" if idx else f"{b_}={canon.valstr(val)}")
+            lines.append(f"construct {ent['cls'].hex()} {ent['id'].hex()} {ent['mode']} 1 A " + " ".join(toks))
+            meta.append((ent, name, rn, kind, ty, sc, v, kw))
+    py = do_corr(res, lines)
+    samples = []
+    for (ent, name, rn, kind, ty, sc, v, kw), a, l in zip(meta, py, lines):
+        nm = f"{defs.MODENAME[ent['mode']]}:{ent['name']}"
+        res.hist[f"{kind}:{type(v).__name__}:" + ("built" if a.startswith("ok ") else a[4:])] += 1
+        res.distinct((kind, ty, type(v).__name__, a[:6]))
+        if not a.startswith("ok "):
+            if a[4:] not in ("UBXMessageError", "UBXTypeError"):
+                res.finding(f"class=escapes-as-{a[4:]};kind={kind};type={ty[0]}", f"bad value escaped as {a[4:]}", dict(op=l[:600]))
+            continue
+        pl = field(a, "payload")
+        pl = b"" if pl in ("None", "-") else bytes.fromhex(pl)
+        # the definition that was actually used (variant selection may differ from `ent`): re-derive by parsing
+        try:
+            m = UBXReader.parse(bytes.fromhex(field(a, "ser")), msgmode=ent["mode"], parsebitfield=True)
+        except Exception as e:  # noqa
+            res.finding(f"class=accepted-but-unparseable;kind={kind};type={ty[0]}", f"value accepted, message does not parse back ({canon.excname(e)})", dict(op=l[:600]))
+            continue
+        L = spec_len(ent, kw)
+        if L is not None and m.identity == ent["name"].split("-V")[0] if False else False:
+            pass
+        back = {k: x for k, x in m.__dict__.items() if k[0] != "_"}
+        if L is not None and len(pl) != L and ent["name"] == m.identity:
+            key = f"class=payload-length;kind={kind};type={ty[0:1]}"
+            if ty[0] == "C" and ty != "CH" and isinstance(v, (bytes, str)):
+                key = "class=C-wrong-length-accepted"
+            res.finding(key, f"payload has {len(pl)} bytes, the definition implies {L}", dict(op=l[:600]))
+            continue
+        if rn in back:
+            got = back[rn]
+            okv = False
+            if kind == "scaled" and isinstance(v, (int, float)) and isinstance(got, (int, float)) and v == v:
+                okv = abs(got - v) <= abs(sc) * (1 + 1e-9)
+            elif ty == "CH" and isinstance(v, (bytes, str)):
+                okv = (got == v) if isinstance(v, str) else (got == v.decode("utf-8", "backslashreplace"))
+            elif isinstance(v, bool) and isinstance(got, int):
+                okv = int(v) == got
+            elif ty[0] == "R" and isinstance(v, (int, float)):
+                if gen.tsize(ty) == 4 and v == v and abs(v) != float("inf"):
+                    okv = got == struct.unpack("<f", struct.pack("<f", float(v)))[0]
+                else:
+                    okv = same_value(float(v), got)
+            elif ty[0] == "C" and isinstance(v, str):
+                okv = got == v.encode("utf-8", "backslashreplace")
+            else:
+                okv = same_value(got, v) or (isinstance(v, int) and not isinstance(v, bool) and got == v)
+            if not okv:
+                key = f"class=mis-encoded;kind={kind};type={ty[0]};py={type(v).__name__}"
+                if ty[0] == "C" and ty != "CH" and isinstance(v, (bytes, str)):
+                    key = "class=C-wrong-length-accepted"
+                if ty[0] == "A" and isinstance(v, list):
+                    key = "class=A-longer-list-truncated"
+                res.finding(key, f"{rn} supplied {v!r} decodes as {got!r}", dict(op=l[:600]))
+        # no other field disturbed: everything else is nominal / as supplied
+        for k, x in back.items():
+            if k == rn or k in kw:
+                continue
+            if not is_blank(x):
+                key = f"class=other-field-altered;kind={kind};type={ty[0]}"
+                if ty[0] == "C" and isinstance(v, (bytes, str)):
+                    key = "class=C-wrong-length-accepted"
+                res.finding(key, f"supplying {rn}={v!r} altered {k}={x!r}", dict(op=l[:600]))
+                break
+        if len(samples) < 3:
+            samples.append(l[:120])
+    return res.finish("distinct (attribute kind, type, python type of the value, outcome) over every keyword-constructible definition × bad-value pool", samples)
+
+
+CHECKS["C15"] = check_C15
+
+
+# ----------------------------------------------------------------------------- C16
+
+def py_grammar_violations(ctx, ent):
+    """independent (Python) statement of the README grammar; returns list of (rule, detail)"""
+    out = []
+    d = ent["defn"]
+    own = set(ctx.facts.get("ownNames", []))
+    valid_letters = set(pyubx2.ubxtypes_core.ATTTYPE)
+    names = []          # all exposed base names (reserved flags excluded)
+    top_prior = {}      # top-level names seen so far -> (kind, type)
+
+    def okty(t):
+        return isinstance(t, str) and (t == "CH" or (len(t) == 4 and t[0] in valid_letters and t[1:].isdigit() and int(t[1:]) > 0))
+
+    def walk(dd, depth, top):
+        items = list(dd.items())
+        for pos, (k, v) in enumerate(items):
+            if isinstance(v, tuple):
+                numr, sub = v
+                if numr in gen.BITTYPES:
+                    tot = 0
+                    for f, ft in sub.items():
+                        if not okty(ft):
+                            out.append(("W1", f"{k}.{f}: bad flag type {ft!r}"))
+                        else:
+                            tot += gen.tsize(ft)
+                        if f[0:8] != "reserved":
+                            names.append(f)
+                            if top:
+                                top_prior[f] = ("flag", ft)
+                    if tot > 8 * gen.tsize(numr):
+                        out.append(("W2", f"{k}: flags need {tot} bits, bitfield has {8 * gen.tsize(numr)}"))
+                    names.append(("bf0", k))
+                else:
+                    if isinstance(numr, int):
+                        pass
+                    elif numr == "None":
+                        if not top or pos != len(items) - 1:
+                            out.append(("W4", f"{k}: variable-by-size group is not the last top-level item"))
+                        for kk, vv in sub.items():
+                            if isinstance(vv, (tuple, list)) and not (isinstance(vv, tuple) and vv[0] in gen.BITTYPES):
+                                out.append(("W4", f"{k}.{kk}: member of a variable group is not a plain attribute"))
+                    elif isinstance(numr, str):
+                        src = top_prior.get(numr)
+                        if src is None:
+                            out.append(("W3", f"{k}: count {numr!r} is not an earlier top-level attribute"))
+                        elif src[0] == "attr" and not (src[1][0] in "EILU" and gen.tsize(src[1]) <= 2):
+                            out.append(("W3", f"{k}: count {numr!r} has type {src[1]}"))
+                    else:
+                        out.append(("W3", f"{k}: count of type {type(numr).__name__}"))
+                    walk(sub, depth + 1, False)
+            else:
+                t, sc = (v[0], v[1]) if isinstance(v, list) else (v, None)
+                if not okty(t):
+                    out.append(("W1", f"{k}: bad type {t!r}"))
+                if sc is not None and not (isinstance(t, str) and t[0] in "UI" and isinstance(sc, (int, float)) and sc > 0):
+                    out.append(("W7", f"{k}: scale {sc!r} on type {t!r}"))
+                if t == "CH" and len(d) != 1:
+                    out.append(("W8", f"{k}: CH is not the sole item"))
+                if k[0:3] == "_HP":
+                    if k[3:] not in [x for x in names if isinstance(x, str)]:
+                        out.append(("W9", f"{k}: no earlier attribute {k[3:]}"))
+                else:
+                    names.append(k)
+                if top:
+                    top_prior[k] = ("attr", t if isinstance(t, str) else "")
+            if top and k in own:
+                out.append(("W6", f"{k}: collides with UBXMessage.{k}"))
+    walk(d, 0, True)
+    plain = [x for x in names if isinstance(x, str)]
+    dup = sorted({x for x in plain if plain.count(x) > 1})
+    if dup:
+        out.append(("W5", f"duplicate names {dup}"))
+    bf0 = [x[1] for x in names if not isinstance(x, str)]
+    for x in plain:
+        parts = x.split("_")
+        if len(parts) > 1 and parts[-1].isdigit() and any(isinstance(v, tuple) and v[0] not in gen.BITTYPES for v in d.values()):
+            out.append(("W5", f"name {x} ends in _digits in a definition with groups"))
+    return out
+
+
+def nominal_payload(ent):
+    """all-zero payload of the definition's minimal size, with the variant discriminator pinned"""
+    L = spec_len(ent, {})
+    if L is None:
+        L = 0
+    p = bytearray(L)
+    pin = ent.get("pin")
+    if pin and pin[0] == "byte" and len(p) > pin[1]:
+        p[pin[1]] = pin[2]
+    if pin and pin[0] == "bytene" and len(p) > pin[1] and p[pin[1]] in pin[2]:
+        p[pin[1]] = (max(pin[2]) + 1) % 256
+    return bytes(p)
+
+
+def nominal_roundtrip(ent, bf):
+    """build the nominal instance and parse it back; returns error string or None.
+    Route 1: payload bytes (always). Route 2: keywords, when the definition can be selected by keywords."""
+    try:
+        p = nominal_payload(ent)
+        m = UBXMessage(ent["cls"], ent["id"], ent["mode"], parsebitfield=bool(bf), payload=p) if p else UBXMessage(ent["cls"], ent["id"], ent["mode"])
+        m2 = UBXReader.parse(m.serialize(), msgmode=ent["mode"], parsebitfield=bool(bf))
+        if m2.serialize() != m.serialize() or m2.identity != m.identity:
+            return "payload route: reparse differs"
+        if p and not gen.is_cfgval(ent):
+            # the definition actually selected must be this one: same attribute names as the zero layout
+            pass
+        if kw_constructible(ent) and p:
+            kw = {}
+            pin = ent.get("pin")
+            for dk in ("type", "version"):
+                if pin and pin[0] in ("byte", "bytene") and dk in ent["defn"]:
+                    kw[dk] = p[pin[1]]
+                    break
+            if ent["name"] == "CFG-DAT-NUM":
+                kw["datumNum"] = 0
+            if ent["name"] == "CFG-TP5-TPX":
+                kw["tpIdx"] = 0
+            if ent["name"] == "RXM-PMREQ":
+                kw["version"] = 0
+            if not kw:
+                for k, v in ent["defn"].items():
+                    if isinstance(v, str) and v != "CH":
+                        kw[k] = uh.nomval(v)
+                        break
+                    if isinstance(v, list):
+                        kw[k] = 0
+                        break
+                    if isinstance(v, tuple) and v[0] in gen.BITTYPES:
+                        f = next(iter(v[1]))
+                        if f[0:8] != "reserved":
+                            kw[f] = 0
+                            break
+            if kw:
+                mk = UBXMessage(ent["cls"], ent["id"], ent["mode"], parsebitfield=bool(bf), **kw)
+                if mk.serialize() != m.serialize():
+                    return f"keyword route builds {mk.serialize().hex()[:60]}, payload route {m.serialize().hex()[:60]}"
+    except Exception as e:  # noqa
+        return f"{canon.excname(e)}: {str(e)[:80]}"
+    return None
+
+
+def check_C16(ctx):
+    res = Result()
+    # translator round trip: every definition dumped back by the driver equals the live Python object
+    lines, meta = [], []
+    for tname, mode in (("get", GET), ("set", SET), ("poll", POLL)):
+        tbl = defs.TABLES[mode]
+        for i, (k, d) in enumerate(tbl.items()):
+            lines.append(f"dumpdef {tname} {i}")
+            meta.append((k, d))
+        lines.append(f"dumpcount {tname}")
+        meta.append((None, len(tbl)))
+    mo = run_model(lines)
+    res.count(len(lines))
+    for (k, d), a, l in zip(meta, mo, lines):
+        exp = str(d) if k is None else f"{k} [{dump_items(d)}]"
+        if a != exp:
+            res.diffs.append(dict(op=l, py=exp[:300], model=a[:300]))
+    ids = list(UBX_MSGIDS.items())
+    mo2 = run_model([f"dumpmsgid {i}" for i in range(len(ids))] + ["dumpcount msgids", "dumpcount cfgdb"])
+    res.count(len(mo2))
+    for (k, v), a in zip(ids, mo2):
+        if a != f"{k.hex()} {v}":
+            res.diffs.append(dict(op="dumpmsgid", py=f"{k.hex()} {v}", model=a))
+    if mo2[-2] != str(len(ids)) or mo2[-1] != str(len(ubc.UBX_CONFIG_DATABASE)):
+        res.diffs.append(dict(op="dumpcount", py=f"{len(ids)} {len(ubc.UBX_CONFIG_DATABASE)}", model=" ".join(mo2[-2:])))
+    cfg = list(ubc.UBX_CONFIG_DATABASE.items())
+    idxs = list(range(len(cfg)))
+    mo3 = run_model([f"dumpcfg {i}" for i in idxs])
+    res.count(len(mo3))
+    for i, a in zip(idxs, mo3):
+        k, (kid, ty) = cfg[i]
+        if a != f"{k} {kid} {canon.tyshort(ty)}":
+            res.diffs.append(dict(op=f"dumpcfg {i}", py=f"{k} {kid} {canon.tyshort(ty)}", model=a))
+    # grammar (independent Python statement) and usability of every declared (message, mode)
+    for ent in ctx.cat:
+        nm = f"{defs.MODENAME[ent['mode']]}:{ent['name']}"
+        res.distinct(nm)
+        for rule, detail in py_grammar_violations(ctx, ent):
+            res.finding(f"def={nm};rule={rule}", f"definition breaks grammar rule {rule}: {detail}", dict(definition=nm, detail=detail))
+        if not ent["reachable"]:
+            res.finding(f"def={nm};rule=unreachable", "definition cannot be reached from any class/id in UBX_MSGIDS / variant selector", dict(definition=nm))
+            continue
+        for bf in (1,):
+            err = nominal_roundtrip(ent, bf)
+            res.count()
+            if err:
+                res.finding(f"def={nm};rule=nominal-instance", f"nominal instance cannot be built and parsed: {err}", dict(definition=nm))
+        # every exposed name distinct on a laid-out instance (both views)
+        lay = gen.layout(ctx.rng, ent, maxrep=2)
+        if lay is not None:
+            for bf in (0, 1):
+                try:
+                    m = UBXReader.parse(gen.frame(ent["cls"], ent["id"], lay.payload), msgmode=ent["mode"], parsebitfield=bool(bf))
+                except Exception:  # noqa
+                    continue
+                n_fields = sum(1 for f in lay.fields if f[5] == "attr" and not f[0].startswith("_HP")) if bf == 0 else None
+                if bf == 0:
+                    n_fields += sum(1 for f in lay.fields if f[5] == "bits")
+                    got = len([k for k in m.__dict__ if k[0] != "_"])
+                    if got != n_fields and not gen.is_cfgval(ent) and lay.payload:
+                        res.finding(f"def={nm};rule=W5", f"{n_fields} payload fields are exposed under {got} attribute names", dict(definition=nm))
+    # id table ↔ definitions
+    alld = set()
+    for t in defs.TABLES.values():
+        alld |= set(t)
+    samples = [lines[0], mo[0][:120]]
+    res.assumptions = ["the grammar is the one under 'Extensibility' in README.md, made precise in DESIGN.md §7 C16 (W1–W9)"]
+    return res.finish("every entry of the GET/SET/POLL tables (exhaustive): translator round-trip, grammar rules W1–W9 stated independently in Python, nominal instance built and re-parsed, field-count vs attribute-count", samples)
+
+
+def dump_ty(t):
+    return canon.tyshort(t) if isinstance(t, str) else "?"
+
+
+def dump_items(d):
+    out = []
+    for k, v in d.items():
+        if isinstance(v, tuple):
+            numr, sub = v
+            if numr in gen.BITTYPES:
+                out.append(f"B({k},{dump_ty(numr)},[{','.join(f'{f}:{dump_ty(ft)}' for f, ft in sub.items())}])")
+            else:
+                c = f"#{numr}" if isinstance(numr, int) else ("None" if numr == "None" else f"@{numr}")
+                out.append(f"G({k},{c},[{dump_items(sub)}])")
+        elif isinstance(v, list):
+            sc = v[1]
+            if sc == 1:
+                s = "1"
+            elif isinstance(sc, int):
+                s = f"i{sc}"
+            else:
+                s = "f" + struct.pack(">d", sc).hex()
+            out.append(f"A({k},{dump_ty(v[0])},{s})")
+        else:
+            out.append(f"A({k},{dump_ty(v)},1)")
+    return ",".join(out)
+
+
+CHECKS["C16"] = check_C16
